@@ -233,3 +233,16 @@ CHECKS["C20"] = dict(
            dict(name="serve", pkg="internal/corerad", test="TestVerifC20", shards=S16, env={"VERIF_PART": "serve"}),
            dict(name="race", pkg="internal/corerad", test="TestVerifC20", race=True, shards=S4, env={"VERIF_PART": "race"})],
 )
+
+CHECKS["C17"] = dict(
+    level="exploration",
+    technique="runtime monitoring: metrics registry and debug API wired exactly as main.go, observed at four lifecycle points of a real Advertiser in virtual time and compared with the expected RA; child-process crash attribution for collector panics; race detector on concurrent scrapes during (re)initialisation",
+    rule="seeded accepted configurations covering every stanza kind (prefix/route/RDNSS/DNSSL/MTU/SLLA/captive portal/PREF64, static, wildcard and deprecated, pairwise distinct label identities) × forwarding on/off × debug.prometheus/pprof; each is observed "
+         "(Gather, GET /_/api/interfaces, /metrics, /debug/pprof/) when never initialised, while the first dial is held open, when initialised (after a random clock step ≤3 h; 1/10 also with the forwarding state unreadable) and while a re-dial after a link event is held; "
+         "static configurations are compared with the model's expected RA, wildcard ones (served from the loopback interface's real kernel state) with the RA the advertiser last transmitted; race part: 4 goroutines scraping while the advertiser re-initialises 50 times; "
+         "non-trivial = every configuration; distinct = TOML text",
+    assumptions=VT[:1] + ["before initialisation an error for the scrape/request is accepted (statement), and the expected RA has no source link-layer address",
+                            "wildcard configurations after initialisation depend on the sandbox's loopback addresses; if initialisation fails there the case is skipped and counted"],
+    parts=[dict(name="life", pkg="internal/corerad", test="TestVerifC17", shards=S16, env={"VERIF_PART": "life"}, **DET),
+           dict(name="race", pkg="internal/corerad", test="TestVerifC17", race=True, shards=S8, gomaxprocs=4, env={"VERIF_PART": "race"})],
+)
